@@ -400,6 +400,63 @@ def layout_data_written(ck, L):
             ck.ob('R4.7', 'written-iff-present|%s|%s' % (short(fn['path']).split('::')[0], name), ok, L.loc(c),
                   'attribute %s: %s' % (name, '; '.join(conds) or 'always written') if ok else
                   'attribute %s is not written for every value that was collected (%s): a binding that was evaluated and marked as used leaves no trace in the .ui' % (name, '; '.join(why)), fn=fn['path'])
+        # helper form: `push_opt(&mut tag, "name", &self.attributes.F, d)` with the push_attribute inside the helper
+        for c in H.calls_in(fn['body']):
+            g = L.fn(H.callee(c) or H.callee_decl(c) or '?') if c.get('k') == 'Call' else None
+            if g is None or g is fn or g.get('body') is None or not g['path'].startswith('uigen::layout::'):
+                continue
+            pas = [x for x in H.calls_in(g['body']) if x.get('k') == 'MCall' and x.get('m') == 'push_attribute' and x['args']]
+            if not pas:
+                continue
+            name = next((H.lit_value(a) for a in c['args'] if isinstance(H.lit_value(a), str)), None)
+            fidx = next((i for i, a in enumerate(c['args']) if field_path(a) or (H.strip_refs(a).get('k') == 'Field')), None)
+            n_attr += 1
+            ck.analysed(g['path'])
+            if name is None or fidx is None or len(pas) != 1:
+                ck.ob('R4.7', 'written-iff-present|%s|helper-%s' % (short(fn['path']).split('::')[0], g['name']), False, L.loc(c), 'attribute helper call not understood (name / data argument / %d push_attribute calls)' % len(pas), fn=fn['path'])
+                continue
+            ph = {b['hid'] for b in H.pat_bindings(g['params'][fidx])}
+            pa = pas[0]
+            ok, why, conds = True, [], []
+
+            def presence(cd):
+                x = H.strip_refs(cd)
+                neg = False
+                if x.get('k') == 'Unary' and x.get('op') == 'Not':
+                    neg, x = True, H.strip_refs(x['e'])
+                if x.get('k') == 'MCall' and x.get('m') == 'is_empty' and H.strip_refs(x['recv']).get('k') == 'Path' and H.strip_refs(x['recv']).get('hid') in ph:
+                    return 'empty' if not neg else 'nonempty'
+                return None
+            for a in H.ancestors(g, pa):
+                if a.get('k') in ('Closure', 'For', 'Loop', 'Match'):
+                    ok = False
+                    why.append('written inside a %s' % a['k'])
+                if a.get('k') == 'If':
+                    in_then = any(x is pa for x in walk(a['then']))
+                    pr = presence(a['c']) if a['c'].get('k') != 'LetCond' else None
+                    if (pr == 'nonempty' and in_then) or (pr == 'empty' and not in_then):
+                        conds.append('data is not empty')
+                    else:
+                        ok = False
+                        why.append('guard `%s`' % pp(a['c'], maxlen=70))
+            # early exits in front of the write
+            for n in walk(g['body'], enter_closures=False):
+                if n.get('k') == 'Ret' and H.source_before(n, pa):
+                    iff = next((a for a in H.ancestors(g, n) if a.get('k') == 'If'), None)
+                    pr = presence(iff['c']) if iff is not None and iff['c'].get('k') != 'LetCond' else None
+                    in_then = iff is not None and any(x is n for x in walk(iff['then']))
+                    if iff is not None and ((pr == 'empty' and in_then) or (pr == 'nonempty' and not in_then)):
+                        conds.append('returns early only for an empty list')
+                    else:
+                        ok = False
+                        why.append('leaves before the write under `%s`' % (pp(iff['c'], maxlen=70) if iff is not None else 'no condition'))
+            for cc in H.calls_in(g['body']):
+                if cc.get('k') == 'MCall' and cc.get('m') in NARROWING and any(x is cc for x in walk(pa)):
+                    ok = False
+                    why.append('the value drops elements (%s)' % cc['m'])
+            ck.ob('R4.7', 'written-iff-present|%s|%s' % (short(fn['path']).split('::')[0], name), ok, L.loc(c),
+                  'attribute %s (through %s): %s' % (name, g['name'], '; '.join(conds) or 'always written') if ok else
+                  'attribute %s is not written for every value that was collected (%s(): %s): a binding that was evaluated and marked as used leaves no trace in the .ui' % (name, g['name'], '; '.join(why)), fn=fn['path'])
     ck.floor('R4.7', n_attr, 10, 'conditional attributes of <layout> and <item>')
 
 
